@@ -500,8 +500,12 @@ def ref_step(ref, r, op, res, pre):
         ref.kind = "list"
         return None
     if t in ("set_charset", "del_charset", "set_content_type", "set_status", "set_location", "set_cond", "set_attr"):
-        if t == "set_location" and op[1] and ("\r" in op[1] or "\n" in op[1]) and not raised:
-            return ("set_location:control-characters-accepted", "%r accepted" % (op,))
+        if t == "set_location" and op[1] and ("\r" in op[1] or "\n" in op[1]):
+            if not raised:
+                return ("set_location:control-characters-accepted", "%r accepted" % (op,))
+            if [tuple(h) for h in r.headerlist] != pre["headerlist"]:
+                return ("set_location:refused-but-changed", "%r was refused but the headers went from %r to %r"
+                        % (op, pre["headerlist"], r.headerlist))
         return None                      # may legitimately refuse (ValueError/KeyError/AttributeError); body untouched
     if t == "reassign_app_iter":
         if raised:
